@@ -1,6 +1,8 @@
 """Recording executions of the real pipeline code as trace records for the Trace_*.tla specs."""
 from __future__ import annotations
 
+import json
+
 import math
 import traceback
 from fractions import Fraction
@@ -146,13 +148,23 @@ def default_cfg(**kw) -> dict:
 
 
 def make_handler(h: dict) -> EdgeCaseHandler:
+    """The same per-metric table can be written down in several documented ways: all four scenario
+    results spelled out, or a default result plus the scenarios that differ from it (in any choice of
+    default).  Which way is used is a deterministic function of the table, so a record is reproducible."""
+    import zlib
+    arg = {"NO_INSTANCES": "no_instances_result", "EMPTY_PRED": "empty_prediction_result", "EMPTY_REF": "empty_reference_result",
+           "NORMAL": "normal"}
     zt = {}
     for m, row in h["zt"].items():
-        zt[METRIC[m]] = MetricZeroTPEdgeCaseHandling(
-            no_instances_result=EdgeCaseResult[row["NO_INSTANCES"]],
-            empty_prediction_result=EdgeCaseResult[row["EMPTY_PRED"]],
-            empty_reference_result=EdgeCaseResult[row["EMPTY_REF"]],
-            normal=EdgeCaseResult[row["NORMAL"]])
+        style = zlib.crc32(json.dumps([m, row], sort_keys=True).encode()) % 3
+        if style == 0:
+            kw = {arg[sc]: EdgeCaseResult[row[sc]] for sc in arg}
+        else:
+            vals = [row[sc] for sc in arg]
+            default = max(sorted(set(vals)), key=vals.count) if style == 1 else row["NORMAL"]
+            kw = {"default_result": EdgeCaseResult[default]}
+            kw.update({arg[sc]: EdgeCaseResult[row[sc]] for sc in arg if row[sc] != default})
+        zt[METRIC[m]] = MetricZeroTPEdgeCaseHandling(**kw)
     return EdgeCaseHandler(listmetric_zeroTP_handling=zt, empty_list_std=EdgeCaseResult[h["estd"]])
 
 
